@@ -236,6 +236,14 @@ func (p *processor) process(in ion.Reader) error {
 			}
 		}
 
+		if in.IsNull() && in.Type() != ion.NullType {
+			// A typed null has no value to read; the accessors return nil for it.
+			if err = p.out.WriteNullType(in.Type()); err != nil {
+				return p.error(write, err)
+			}
+			continue
+		}
+
 		switch in.Type() {
 		case ion.NullType:
 			err = p.out.WriteNull()
